@@ -144,6 +144,16 @@ def check(tree, rep, tier='quick', seed=0):
                     rep.ob('R17.4', f'{ikey}/i:{nm}/unique', lk not in seen_i,
                            f'input {nm!r} declared twice in {fr.name} (first at {seen_i.get(lk)})', r.where)
                     seen_i.setdefault(lk, r.where)
+                    # the options of an input have the kinds its class expects (a description passed in the position of
+                    # allow_empty makes every blank answer valid and loses the help text the commands print)
+                    desc = r.attrs.get('_description')
+                    rep.ob('R17.8', f'{ikey}/i:{nm}/description-is-text', isinstance(desc, str) and desc.strip() != '',
+                           f'input {nm!r} of {fr.name}: the help text is {desc!r}', r.where)
+                    if 'allow_empty' in r.attrs:
+                        ae = r.attrs.get('allow_empty')
+                        rep.ob('R17.8', f'{ikey}/i:{nm}/allow_empty-is-a-flag', isinstance(ae, bool),
+                               f'input {nm!r} of {fr.name}: allow_empty is {ae!r} (an argument landed in the wrong position): any non-empty value there makes a blank answer '
+                               'valid, so the line receives None instead of a member of its enumeration', r.where)
                 seen_f = {}
                 for r in fr.fields:
                     if not (isinstance(r, Rec) and r.cls.is_sub_named('Field')):
@@ -240,6 +250,24 @@ def check(tree, rep, tier='quick', seed=0):
     rep.count('(table, status) pairs', n_pairs)
 
 
+def input_options_rule(cat, rep, rule='R17.8'):
+    """allow_empty of every catalogued input is a real flag (see R17.8 in check())"""
+    n = 0
+    for y in cat.years:
+        for fr in cat.forms(y):
+            if fr.rec is None:
+                continue
+            for r in fr.inputs:
+                if isinstance(r, Rec) and 'allow_empty' in r.attrs:
+                    n += 1
+                    ae = r.attrs.get('allow_empty')
+                    nm = r.attrs.get('_name')
+                    rep.ob(rule, f'{y}/{fr.name}/i:{nm}/allow_empty-is-a-flag', isinstance(ae, bool),
+                           f'input {nm!r} of {fr.name}: allow_empty is {ae!r} (an argument landed in the wrong position): any non-empty value there makes a blank answer '
+                           'valid, so the line receives None instead of a member of its enumeration', r.where)
+    rep.floor('enumeration inputs whose allow_empty flag was checked', n, 50)
+
+
 def shared_rule(cat, rep, rule='R17.7'):
     n = 0
     for y in cat.years:
@@ -261,7 +289,36 @@ def shared_rule(cat, rep, rule='R17.7'):
                            f'the {what} object {nm!r} of {fr.name} is shared with {prev or "another form instance"} (created once, e.g. at module level): '
                            f'the instance built last rebinds it, the other silently loses the line - the result then depends on the order in which forms are added', r.where)
                     owner.setdefault(id(r), fr.name)
+    # a second copy of the same class (w-2:1 next to w-2:0; the same form in a second Solver of the same process) must be
+    # built from objects of its own: an input or line object created once per class or module is re-bound by whichever
+    # copy is built last, and the earlier copy then reads and names the later copy's section
+    from ..formx import _root_scope, SolverTok
+    from ..interp import InterpAbort
+    ip = cat.interp
+    n2 = 0
+    for y in cat.years:
+        for fr in cat.forms(y):
+            if fr.rec is None:
+                continue
+            try:
+                twin = ip.instantiate(fr.cls, [], {'instance': fr.instance if fr.instance is not None else '1', 'solver': SolverTok()}, fr.cls.node, _root_scope(ip, fr.cls.rel))
+            except InterpAbort:
+                continue
+            mine = {id(r): r for table in (fr.inputs, fr.fields) for r in table if isinstance(r, Rec)}
+            for attr in ('_inputs', '_required_fields', '_optional_fields', '_fields'):
+                tv = twin.attrs.get(attr)
+                for r in (tv.values() if isinstance(tv, dict) else tv if isinstance(tv, list) else []):
+                    if not isinstance(r, Rec):
+                        continue
+                    n2 += 1
+                    if id(r) in mine:
+                        nm = r.attrs.get('_name')
+                        rep.ob(rule, f'{y}/{fr.form_name}/{nm}/fresh-object-per-copy', False,
+                               f'the object of {fr.form_name}.{nm} is created once and handed to every copy of the form (class or module level list): the copy built last re-binds it, '
+                               f'so an earlier copy reads, names and reports the later copy\'s section', r.where)
+    rep.ob(rule, 'copies-of-a-form-share-no-input-or-line-object', True)
     rep.count('objects checked for single ownership', n)
+    rep.count('objects of a second copy compared with the first', n2)
 
 
 def _kname(k):
